@@ -13,6 +13,7 @@ mod out;
 mod pci;
 mod scen_blk;
 mod scen_cfg;
+mod scen_cmd;
 mod scen_console;
 mod scen_evq;
 mod scen_layout;
@@ -129,6 +130,7 @@ fn main() {
         "net" => family_generic(&args, "net", |a| scen_net::all_params(a.tier == "thorough", a.seed), |v| scen_net::NetParams::from_json(v), |p| p.to_json(), |p, sc| scen_net::run(p, sc)),
         "vsock" => family_generic(&args, "vsock", |a| scen_vsock::all_params(a.extra.first().map(|s| s.as_str()).unwrap_or("random"), a.tier == "thorough", a.seed), |v| scen_vsock::VsParams::from_json(v), |p| p.to_json(), |p, sc| scen_vsock::run(p, sc)),
         "evq" => family_generic(&args, "evq", |a| scen_evq::all_params(a.tier == "thorough", a.seed), |v| scen_evq::EvqParams::from_json(v), |p| p.to_json(), |p, sc| scen_evq::run(p, sc)),
+        "cmd" => family_generic(&args, "cmd", |a| scen_cmd::all_params(a.extra.first().map(|s| s.as_str()).unwrap_or("main"), a.tier == "thorough", a.seed), |v| scen_cmd::CmdParams::from_json(v), |p| p.to_json(), |p, sc| scen_cmd::run(p, sc)),
         "blk" => family_generic(&args, "blk", |a| scen_blk::all_params(a.tier == "thorough", a.seed), |v| scen_blk::BlkParams::from_json(v), |p| p.to_json(), |p, sc| scen_blk::run(p, sc)),
         f => {
             eprintln!("unknown family {f}");
